@@ -168,9 +168,42 @@ func (x *vsrvC15) canOpen(v vsrvC15View) bool {
 	return true
 }
 
-func (x *vsrvC15) openGet(settledBefore bool) {
+// openGet opens a GET stream. With tryOver it is an *over-limit* open when that can be proved.
+//
+// Soundness of the over-limit verdict (the two byte directions and the handler events have no
+// global order unless the script creates one): the stream is marked over-limit only if
+//
+//	Q1  the script's previous action was a settle() that found the connection fully quiescent
+//	    (settledClean: every goroutine of the bubble durably blocked — virtual time does not
+//	    move because the script never sleeps —, all client bytes processed, no server write
+//	    blocked or half on the wire, so every END_STREAM / RST_STREAM the server accounts as
+//	    written has been seen by the shadow state) and at that instant at least
+//	    MAX_CONCURRENT_STREAMS streams had a handler that started and did not return, with no
+//	    END_STREAM / RST_STREAM from the server and no RST_STREAM sent by the client: each of
+//	    them is open in the server's own accounting (a stream is taken off the server's count
+//	    only when it wrote END_STREAM / RST_STREAM or processed the client's RST_STREAM) and
+//	    its handler is parked on something only the script or the client can provide;
+//	--  the only stimulus after Q1 is the HEADERS frame of the new stream;
+//	Q2  the script settles again before doing anything else, and the server has consumed the
+//	    HEADERS frame by then (otherwise the mark is withdrawn).
+//
+// Between Q1 and Q2 nothing but the HEADERS frame can make the server act, so when the serve
+// loop processed it all streams counted at Q1 were still open. Streams that the client reset
+// are never counted (the server stops counting them when it processes the RST_STREAM, even
+// while their handlers are still running — those only count against the handler bound).
+func (x *vsrvC15) openGet(tryOver bool) {
+	quiescent := tryOver && x.s.settledClean()
 	v := x.look()
-	over := settledBefore && v.provablyOpen >= int(x.d.Adv)
+	over := quiescent && v.provablyOpen >= int(x.d.Adv)
+	if tryOver && !over {
+		x.s.mu.Lock()
+		if !quiescent {
+			x.s.ev["over_limit_attempts_not_quiescent"]++
+		} else {
+			x.s.ev["over_limit_attempts_limit_not_reached"]++
+		}
+		x.s.mu.Unlock()
+	}
 	if !over && !x.canOpen(v) {
 		return
 	}
@@ -184,6 +217,17 @@ func (x *vsrvC15) openGet(settledBefore bool) {
 	}
 	x.s.cliHeaders(id, true, vsrvGetFields(fmt.Sprintf("/s/%d", id)))
 	x.note("open s=%d over_limit=%v", id, over)
+	if over {
+		x.s.settle() // Q2: nothing else happens before the server has dealt with the HEADERS
+		x.note("settle")
+		if !x.s.settledAllRead() {
+			x.s.mu.Lock()
+			x.s.st(id).overLimit = false
+			x.s.ev["over_limit_opens"]--
+			x.s.ev["over_limit_opens_withdrawn"]++
+			x.s.mu.Unlock()
+		}
+	}
 }
 
 func (x *vsrvC15) openPost() {
